@@ -14,7 +14,9 @@ use std::collections::BTreeMap;
 use std::time::{Duration, Instant};
 
 fn case(cfg: &Config, idx: u64, r: &mut Rng, st: &mut Stats) {
-    let so = StrongOpts { hostile_names: r.chance(1, 3), ..Default::default() };
+    // hostile names: predicates named like h-/t-copies; hostile symbols: symbolic constants named
+    // like predicates (renamed in the problems) and like the renamed constants
+    let so = StrongOpts { hostile_names: r.chance(1, 3), hostile_symbols: r.chance(1, 6), ..Default::default() };
     let (l, rt) = gen_strong_with(r, so);
     let (Ok(lp), Ok(rp)) = (parse_program(&l), parse_program(&rt)) else {
         st.inc("generator_parse_errors");
@@ -30,9 +32,19 @@ fn case(cfg: &Config, idx: u64, r: &mut Rng, st: &mut Stats) {
     // one or two flag combinations per pair
     let flag_sets: Vec<Flags> = (0..cfg.pick(2, 3)).map(|_| Flags::random(r)).collect();
     let mut built: Vec<(Flags, Vec<ProblemData>)> = Vec::new();
+    let mut symbols_identified = false;
     for flags in flag_sets {
         match build_strong(&lp, &rp, mu, flags) {
-            Built::Ok { problems, .. } => built.push((flags, problems)),
+            Built::Ok { problems, .. } => {
+                if problems.iter().any(|p| p.symbol_map.iter().any(|(c, n)| c != n)) {
+                    st.inc("tasks_with_renamed_symbolic_constants");
+                }
+                if problems.iter().any(|p| p.identifies_symbols()) {
+                    symbols_identified = true;
+                }
+                // constants renamed for TPTP's sake are read as the constants they stand for
+                built.push((flags, problems.iter().map(|p| p.with_original_symbols()).collect()))
+            }
             Built::Refused(e) => {
                 st.violation("strong-task-refused", format!("strong equivalence task refused: {e}"), J::obj().set("left", J::s(&l)).set("right", J::s(&rt)));
                 return;
@@ -87,7 +99,7 @@ fn case(cfg: &Config, idx: u64, r: &mut Rng, st: &mut Stats) {
                         st.inc("definite_comparisons");
                         st.eval(None);
                         st.violation(
-                            format!("{prefix}-refutation-mismatch"),
+                            format!("{prefix}-refutation-mismatch{}", if symbols_identified { ":symbolic-constants-identified-by-renaming" } else { "" }),
                             format!("{prefix}: problems refuted = {x:?} (by {which:?}), HT pair distinguishes = {y:?}"),
                             J::obj()
                                 .set("left", J::s(&l))
